@@ -221,6 +221,10 @@ class _BytesMeta(type):
             return as_symbytes(a[0])
         if a and isinstance(a[0], list) and any(isinstance(v, SInt) for v in a[0]):
             return SymBytes([(v, 1, False) for v in a[0]])
+        if len(a) == 1 and not k and cls._real is builtins.bytes and hasattr(type(a[0]), "__bytes__") \
+                and not isinstance(a[0], (builtins.bytes, builtins.bytearray)):
+            r = a[0].__bytes__()        # bytes(structure): the library's own __bytes__ may hand back the byte-string model
+            return r if isinstance(r, SymBytes) else cls._real(r)
         return cls._real(*a, **k)
 
 
@@ -393,6 +397,21 @@ class SymStruct:
         if self.size > pos:
             chunks.append((0, self.size - pos, False))
         return SymBytes(chunks)
+
+    def pack_into(self, buf, offset, *vals):
+        """Struct.pack_into on a memory map of the file model: one write effect at that offset (through the mapping)"""
+        data = self.pack(*vals)
+        if not hasattr(buf, "vf"):
+            raise Unsupported("pack_into on " + type(buf).__name__)
+        if getattr(buf, "readonly", False):
+            raise TypeError("mmap can't modify a readonly memory map.")
+        if isinstance(offset, SInt):
+            raise Unsupported("pack_into at a symbolic offset")
+        if offset < 0:
+            offset += len(buf)
+        if offset < 0 or offset + self.size > len(buf):
+            raise _struct.error(f"pack_into requires a buffer of at least {offset + self.size} bytes")
+        buf.vf.write_at(offset, data, "mmap-write")
 
     def unpack_from(self, d, offset=0):
         d = as_symbytes(d)
